@@ -68,11 +68,11 @@ CHECKS["C04"] = dict(
     technique="Coq proof (canonical JSON: insertion sort on keys is order-independent; keyword dictionaries equal as finite maps have equal pre-images; keyword order irrelevance through _compute_effective_kwargs) + exact differential check: SHA-256 of the model's pre-image bytes vs arg_hash",
     text="Theorems over Codec/Json.v + Codec/ArgHash.v: the normalized JSON of an object does not depend on member order at any depth; two effective-kwargs dictionaries binding equal values to the same names have the same pre-image; "
          "keyword order is irrelevant for every signature / partial application / positional split; every presentation that binds has the key of the all-keyword presentation of its own binding; positional and keyword arguments fixed by partial application are "
-         "positional / keyword arguments of the call (any signature, any lengths); the encoding that is hashed is injective on normalized (tag-free) values of any type and depth, and refuted without that restriction (a dictionary spelled like a tagged date IS that date: the implementation normalizes it, checked); "
+         "positional / keyword arguments of the call (any signature, any lengths); the encoding that is hashed is injective on normalized (tag-free) values of any type and depth, two normalized values have the same normalized JSON value IF AND ONLY IF their canonical forms (dictionary members in key order at every depth) coincide, and injectivity is refuted without the restriction (a dictionary spelled like a tagged date IS that date: the implementation normalizes it, checked); "
          "the body receives exactly the kwargs the key was computed from; non-empty context args are a member of the hashed dictionary. "
          "The model prints the exact pre-image bytes (Python's ensure_ascii escaping, surrogate pairs, decimal integers); the harness hashes them with hashlib and compares with the implementation for generated bindings in paired presentations, "
          "and checks hit / miss and minimally different bindings directly. Also: values equal for Python but different once normalized (+-0.0, equal instants with different offsets) incl. on a re-opened store, batch presentations under context arguments, redefinition with reordered parameters, var-keyword signatures, several partials derived from one keyword-partial.",
-    note="PARTIAL: injectivity ('differs whenever a bound value or its type differs') is proved for the JSON value that is hashed (C04_encoding_injective_partial, all normalized values), not for its text rendering nor SHA-256: that last step is checked on the exact pre-image bytes of generated "
+    note="PARTIAL: injectivity ('differs whenever a bound value or its type differs') is proved for the JSON value that is hashed (C04_encoding_injective_partial, C04_same_hashed_value_iff_same_canonical_value_partial: all normalized values), not for its text rendering nor SHA-256: that last step is checked on the exact pre-image bytes of generated "
          "minimally-different bindings. Partial keywords combined with call positionals (functools-style skipping of bound names) are covered by the general all-keyword theorem and the differential check, not by a flattening theorem. Float repr and isoformat are oracles.",
     ref="6/C04")
 CHECKS["C11"] = dict(
